@@ -19,11 +19,16 @@ Oracle : the harness evaluates every condition itself, exactly (Fractions, in th
                                        node had activated in this arming) | in-alarm (node inside an Alarm body) | none
   body-after-block-end:<how>           body effect in a later tick than the end event of a lexically enclosing Block;
                                        how = armed-before-end | armed-after-end (armed when the block had already ended and
-                                       running while the block has not started again)
+                                       running while the block has not started again) [:user-endblock[:in-alarm] when that
+                                       end came from a user End block request]
   no-response:<kind>[:rearm]           armed, W consecutive Running ticks with the condition true on every shown value,
                                        not disarmed (cancel, enclosing block end, re-arming, error) and still no first
                                        body line effect; W = latency measured on the tree under test + 2 ticks
   alarm-not-rearmed                    W Running ticks after an Alarm run completed without the Alarm being armed again
+  alarm-run-not-completed              an activation of an Alarm (not inside an Alarm, no thresholds in its body) whose body run
+                                       has not completed N + 3 ticks later, N = longest earlier completed run of the same
+                                       body; judged only while Running, without error / user End block, with the enclosing
+                                       blocks alive and no block active other than enclosing ones and the body's own
 """
 from __future__ import annotations
 
@@ -39,7 +44,9 @@ TECHNIQUE = ("Hypothesis-generated methods x input trajectories x cancel/force r
 RULE = ("Hypothesis draws a method (60 % pcode_gen programs with interrupt-heavy weights and thresholds, 40 % directed shapes: "
         "interrupt in a block ended by threshold / from another interrupt / by itself, Block in Alarm with a Watch inside, "
         "Watch in Alarm, Alarm in Watch, two block levels), a piecewise input trajectory around the condition constants and "
-        "0-3 cancel/force requests resolved at run time among the offered run-log items. Non-trivial = some Watch/Alarm was "
+        "0-3 cancel/force requests resolved at run time among the offered run-log items plus 0-2 user End block requests "
+        "(injected code) at early ticks; directed shapes also: block-ending interrupt followed by 0-5 lines and the line under "
+        "test, Alarm with a Block in its body. Non-trivial = some Watch/Alarm was "
         "armed and its condition (harness evaluation) was true on some tick and false on another one after the arming. "
         "Distinct = distinct (method, ticks, trajectory, requests).")
 ASSUMPTIONS = [
@@ -50,6 +57,9 @@ ASSUMPTIONS = [
     "(counted as class zombie-activation)",
     "'the block that contains it' = lexically enclosing Block lines; their end is the listener's block_end event",
     "bounded response of a Watch is read from the title ('runs once after its condition holds'); of an Alarm from 're-armed'",
+    "a run of an Alarm body 'completes' at the listener's scope_end of the Alarm; its duration is compared only with earlier "
+    "completed runs of the same body in the same case (no absolute bound)",
+    "a user End block request is the injected code 'End block' (Engine.inject_code), issued between two ticks while Running",
     "UOD command starts are given one tick of slack against cancel / block end (a command requested in a tick may start in the next)",
 ]
 TIERS = {"quick": {"examples": 4800, "budget_s": 150, "deep": False},
@@ -85,13 +95,20 @@ class Model:
                 sentinel = first.payload if first is not None and first.kind == "mark" and first.node.get("t") is None else None
                 self.irq[l.id] = {"kind": l.kind, "cond": l.node["cond"], "blocks": blocks, "alarm_anc": alarm_anc,
                                   "nested": irq_anc, "sentinel": sentinel, "text": l.text.strip(), "thr": l.node.get("t")}
+        for q in self.irq.values():
+            q["direct_blocks"], q["direct_thr"] = set(), False
         for l in lines:
-            if l.kind not in ("mark", "quick", "slow"):
-                continue
             p = l.parent
             while p is not None and by_id[p].kind not in H.INTERRUPT_KINDS:
                 p = by_id[p].parent
-            if p is not None:
+            if p is None:
+                continue
+            # l runs in the thread of interrupt p
+            if l.kind == "block":
+                self.irq[p]["direct_blocks"].add(l.payload)
+            if l.node is not None and l.node.get("t") is not None:
+                self.irq[p]["direct_thr"] = True
+            if l.kind in ("mark", "quick", "slow"):
                 (self.mark_owner if l.kind == "mark" else self.cmd_owner)[l.payload] = (p, l.id)
 
 
@@ -101,7 +118,7 @@ def analyse(case, tr, latency):
     out: list[Violation] = []
     info = {"armed": 0, "activations": 0, "alarm_refired": 0, "pulse_no_fire": 0, "zombie_activation": 0, "zombie_arm": 0,
             "cut_by_block_end": 0, "toggles": False, "activated_twice_per_arming": 0, "activation_only_after_cancel": 0, "forced_fire": 0, "cancel_effective": 0, "must_windows": 0,
-            "response_not_judged_in_alarm": 0, "response_not_judged_threshold_rearm": 0}
+            "response_not_judged_in_alarm": 0, "response_not_judged_threshold_rearm": 0, "alarm_runs_completed": 0}
 
     def viol(sig, msg):
         if not any(v.sig == sig for v in out):
@@ -232,7 +249,14 @@ def analyse(case, tr, latency):
                 after = zombie_arm and ev[last_end_before_arm][0] + slack < f[1] and \
                     any(block_state_before(b, f[0]) == "block_end" for b in q["blocks"])
                 if before or after:
-                    viol("body-after-block-end:%s" % ("armed-before-end" if before else "armed-after-end"),
+                    # context of the root cause: the block was ended by a user End block request (injected code) that executed in
+                    # the tick of that end event; in-alarm: the node sits in an Alarm body (whose re-arm resets node state)
+                    ctx = ""
+                    if not before:
+                        t_end = ev[last_end_before_arm][0]
+                        if any(e[1] == "req" and e[2] == "endblock" and t_end - 2 <= e[0] <= t_end for e in ev[:last_end_before_arm]):
+                            ctx = ":user-endblock" + (":in-alarm" if q["alarm_anc"] else "")
+                    viol("body-after-block-end:%s%s" % ("armed-before-end" if before else "armed-after-end", ctx),
                          "line %s in the body of %s (%s) took effect at tick %d after an enclosing block (%s) had ended (block events %r; armed at tick %d)"
                          % (f[2], x, q["text"], f[1], ",".join(q["blocks"]),
                             [(ev[i][0], k) for b in q["blocks"] for i, k in blockev.get(b, [])][:6], ta))
@@ -289,6 +313,52 @@ def analyse(case, tr, latency):
                     break
             if had_true and te is None and not seg_acts:
                 info["pulse_no_fire"] += 1
+        # ---- every run of an Alarm body completes like its earlier runs did (differential against its own history) -------
+        if kind == "alarm" and not q["alarm_anc"] and not q["direct_thr"]:
+            allowed = set(q["blocks"]) | q["direct_blocks"] | {"root"}
+            all_blk = sorted((i, k, b) for b, l in blockev.items() for i, k in l)
+            user_end = [i for i, e in enumerate(ev) if e[1] == "req" and e[2] == "endblock"]
+
+            def clean(ai, t_to):
+                """from the activation at event index ai to tick t_to: Running, no error, no user End block, enclosing blocks
+                alive, and no block active or started other than the enclosing ones and those of this body's own thread
+                (a foreign block can hold the block lock and delay the body)"""
+                k = ev[ai][0]
+                if t_to >= n_t or t_to >= err_tick or k < 1:
+                    return False
+                if any(tr.states[t] != "Running" for t in range(k - 1, t_to + 1)):
+                    return False
+                active = set()
+                for i, kk, b in all_blk:
+                    if i < ai:
+                        (active.add if kk == "block_start" else active.discard)(b)
+                    elif ev[i][0] <= t_to:
+                        if kk == "block_start" and b not in allowed:
+                            return False
+                        if kk == "block_end" and b in q["blocks"]:
+                            return False
+                if not active <= allowed:
+                    return False
+                if any(block_state_before(b, ai) == "block_end" for b in q["blocks"]):
+                    return False
+                return not any(i > ai and ev[i][0] <= t_to for i in user_end) and \
+                    not any(i <= ai and ev[i][0] >= k - 1 for i in user_end)
+
+            ref = None
+            for n, ai in enumerate(acts[x]):
+                nxt_act = acts[x][n + 1] if n + 1 < len(acts[x]) else INF
+                k = ev[ai][0]
+                done = next((i for i in ends[x] if ai < i < nxt_act), None)
+                if ref is not None:
+                    limit = k + ref + MARGIN + 1
+                    if (done is None or ev[done][0] > limit) and clean(ai, limit):
+                        viol("alarm-run-not-completed",
+                             "Alarm %s (%s) activated at tick %d: the run of its body had not completed by tick %d, although an earlier run of the same body completed in %d ticks "
+                             "(Running throughout, no foreign block active, enclosing blocks alive, no user End block); body effects of this run at ticks %r"
+                             % (x, q["text"], k, limit, ref, [f[1] for f in effs[x] if ai < f[0] < nxt_act][:8]))
+                if done is not None and clean(ai, ev[done][0]):
+                    ref = max(ref or 0, ev[done][0] - k)
+                    info["alarm_runs_completed"] += 1
         # ---- Alarm re-arms after a completed run ----------------------------------------------------
         if kind == "alarm":
             for e_i in ends[x]:
@@ -360,6 +430,12 @@ def run_shard(col, cfg):
                          ("activation_only_after_cancel", "activation-only-after-cancel")):
             if info[k]:
                 classes.append(label)
+        if info["alarm_runs_completed"] >= 2:
+            classes.append("alarm-two-clean-completed-runs")
+        if any(q["kind"] == "alarm" and q["direct_blocks"] and not q["alarm_anc"] for q in m.irq.values()):
+            classes.append("block-in-alarm-body")
+        if any(r[1] == "endblock" for r in case["reqs"]):
+            classes.append("user-endblock-request")
         if info["req"]["rejected"]:
             classes.append("request-rejected")
         if info["req"]["no-candidate"]:
